@@ -285,6 +285,57 @@ func TestVerifC08(t *testing.T) {
 		})
 		return
 	}
+	// Every status code: one uploader, one ready report, one request answered with the code, then a
+	// second run against a server that accepts. 200 marks the week uploaded; every 4xx discards the
+	// report without marking it; everything else leaves it in place and the second run delivers it.
+	for code := 100; code <= 599; code++ {
+		if !p.Mine(code) {
+			continue
+		}
+		u := zzvNewU(base)
+		u.setModeRaw("on 2020-01-01")
+		body := []byte(`{"Week":"` + zzvC08Week + `","X":0.5,"Config":"v1.2.3","Programs":[]}`)
+		staged := filepath.Join(u.td.LocalDir(), zzvC08Week+".json")
+		os.WriteFile(staged, body, 0o666)
+		zzvInstall(zzvAllApproving([]ref.LocalFile{{zzvBuildA, map[string]uint64{"c": 1}}}), "v1.2.3", 0.5)
+		vhttp.Answer = func(*vhttp.Request) int { return code }
+		start := time.Date(2024, 1, 10, 12, 0, 0, 0, time.UTC)
+		u.run(start)
+		_, markerErr := os.Stat(filepath.Join(u.td.UploadDir(), zzvC08Week+".json"))
+		_, stagedErr := os.Stat(staged)
+		res.Evaluations++
+		fail := func(sig, format string, args ...any) {
+			res.Violate(sig, fmt.Sprintf(format, args...)+fmt.Sprintf(" [server answers %d]", code), map[string]any{"status": code})
+		}
+		switch {
+		case code == 200:
+			if markerErr != nil || stagedErr == nil {
+				fail("status-200-not-marked", "after 200: marker present=%v, staged report present=%v", markerErr == nil, stagedErr == nil)
+			}
+		case code >= 400 && code < 500:
+			if markerErr == nil {
+				fail("client-error-marked-uploaded", "a client error marked the week uploaded")
+			}
+			if stagedErr == nil {
+				fail("client-error-not-discarded", "the report refused with a client error is still staged and would be sent again")
+			}
+		default:
+			if markerErr == nil {
+				fail("non-200-marked-uploaded", "marked uploaded without an acknowledgement")
+			}
+			if stagedErr != nil {
+				fail("report-lost-on-server-error", "the report was removed although the server did not accept it")
+			}
+			vhttp.Answer = func(*vhttp.Request) int { return 200 }
+			n := len(vhttp.Log)
+			u.run(start.Add(time.Hour))
+			if len(vhttp.Log) != n+1 {
+				fail("not-retried", "the report was not sent again by the next run (%d further requests)", len(vhttp.Log)-n)
+			}
+		}
+		res.Class(fmt.Sprintf("status/%dxx", code/100))
+		u.close()
+	}
 	bounds := []sched.Bounds{{}, {Preempt: 1}, {Fault: 1}, {Preempt: 1, Fault: 1}, {Preempt: 1, Kill: 1, Fault: 1}, {Preempt: 2, Kill: 1, Fault: 2}}
 	if p.Thorough() {
 		bounds = append(bounds, sched.Bounds{Preempt: 3, Kill: 1, Fault: 2}, sched.Bounds{Preempt: 2, Kill: 2, Fault: 3})
